@@ -212,3 +212,31 @@ def make_frame(sym):
                                   "frame_violation": info["frame"]}
         return False, {"note": "caller's arrays unchanged in the replayed cases"}
     return replay
+
+
+def replay_results(model=None):
+    """Real product kernels: the reported intermediates P(Q), S(Q) recombine to I(q) and P(Q) equals
+    scale*volfraction*<F^2>/<V> of an independent evaluation of P (plain and beta mode)."""
+    import numpy as np
+    from sasmodels import core
+    from sasmodels.direct_model import call_kernel, call_Fq
+    q = np.array([0.01, 0.05, 0.12])
+    bad, out = False, []
+    for mode in (0, 1):
+        m = core.load_model("sphere@hardsphere")
+        k = m.make_kernel([q])
+        pars = dict(radius=45.0, volfraction=0.2, structure_factor_mode=mode, radius_effective_mode=1, background=0.02,
+                    scale=1.3)
+        I = np.asarray(call_kernel(k, pars))
+        res = k.results()
+        P, S = np.asarray(res["P(Q)"][1]), np.asarray(res["S(Q)"][1])     # entries are (q vectors, values)
+        kp = core.load_model("sphere").make_kernel([q])
+        F1, F2, R, V, ratio = call_Fq(kp, dict(radius=45.0))
+        wantP = 1.3 * 0.2 * np.asarray(F2) / V
+        ok = np.allclose(P, wantP, rtol=1e-10)
+        if mode == 0:
+            ok = ok and np.allclose(P * S + 0.02, I, rtol=1e-10)
+        bad = bad or not ok
+        out.append({"structure_factor_mode": mode, "real_P": P.tolist(), "spec_P": wantP.tolist(), "I": I.tolist()})
+    return bool(bad), {"call": "sphere@hardsphere: results()['P(Q)'] after call_kernel", "real": out,
+                       "spec": "P(Q) = scale*volfraction*<F^2>/<V>; P*S + background = I(q) in plain mode"}
